@@ -19,7 +19,7 @@ RULE = ("read side: NULL text from %d spellings/values (negative, positive, inte
         "from {equal by another spelling, +-1 ulp neighbours, NULL+-1e-6, -NULL, ordinary} incl. the index column x optional "
         "text column x engine {numpy, normal} x null_policy {strict, none} x {unwrapped, wrapped} x files without a NULL item; "
         "write side: LASFiles with NaN at random non-index positions x NULL values x writer options. distinct = distinct (NULL "
-        "spelling, placement pattern, engine, policy, wrap, text column); non-trivial = >= 1 NULL-equal and >= 1 near-NULL cell Added later: surplus columns holding NULL cells, a second write after in-place NaN / fill edits with an optionally changed NULL value, a text curve present on write."
+        "spelling, placement pattern, engine, policy, wrap, text column); non-trivial = >= 1 NULL-equal and >= 1 near-NULL cell Added later: surplus columns holding NULL cells, a second write after in-place NaN / fill edits with an optionally changed NULL value, a text curve present on write. Round 8: files without a ~Well section (or NULL line) whose samples equal the NULL of lasio's default items."
         % len(NULLS))
 ASSUMPTIONS = [
     "NULL texts are plain decimal literals; the cells of a text column are non-numeric tokens, the NULL in its canonical and in the file's own spelling, and codes with leading zeros",
